@@ -110,12 +110,16 @@ def integrator_binding(res):
                                               "row": {"m": [1.0, 3e-2, 1e-2, 2e-3], "na": na, "j": 0}})
                 sim._additional_forces = type(sim._additional_forces)()
                 del sim
-    for name in ("mercurius", "trace"):
+    for name, na, ty in [(nm, a_, t_) for nm in ("mercurius", "trace") for a_, t_ in ((-1, 0), (2, 0), (2, 1), (1, 0))]:
         sim = rebound.Simulation()
         sim.add(m=1.0)
         sim.add(m=3e-2, a=1.0, e=0.1, inc=0.2, f=0.3)
-        sim.add(m=1e-2, a=1.9, e=0.2, inc=0.1, Omega=1.0, f=2.0)
+        sim.add(m=1e-2, a=1.9, e=0.2, inc=0.1, Omega=1.0, f=2.0)      # behind N_active in some variants, and massive
         sim.move_to_com()
+        if na != -1:
+            sim.N_active = na
+        sim.testparticle_type = ty
+        sim.testparticle_hidewarnings = 1
         for p in sim.particles:
             p.x += 2.0
             p.vy += 0.3
@@ -131,7 +135,45 @@ def integrator_binding(res):
         res["calls"] += 2
         if d > 1e-13:
             res["violations"].append({"fn": "%s inertial_to_dh / dh_to_inertial" % name, "clause": "inverse(forward(q)) = q in a displaced, moving frame", "body": None,
-                                      "component": "max difference", "got": d, "want": 0.0, "row": {"m": [1.0, 3e-2, 1e-2], "na": -1, "j": 0}})
+                                      "component": "max difference (testparticle_type %d)" % ty, "got": d, "want": 0.0, "row": {"m": [1.0, 3e-2, 1e-2], "na": na, "j": 0}})
+
+
+def reused_arrays(res):
+    """the internal coordinate array of an integrator is re-used from step to step: a forward transformation with all bodies active followed by
+    one with fewer active bodies into the SAME array, then the inverse, must still return the inertial state (nothing stale may be read)"""
+    L = clibrebound
+    POSV = ("x", "y", "z", "vx", "vy", "vz")
+    fam = {"jacobi": ("inertial_to_jacobi_posvel", "jacobi_to_inertial_posvel", True), "democraticheliocentric": ("inertial_to_democraticheliocentric_posvel", "democraticheliocentric_to_inertial_posvel", False),
+           "whds": ("inertial_to_whds_posvel", "whds_to_inertial_posvel", False), "barycentric": ("inertial_to_barycentric_posvel", "barycentric_to_inertial_posvel", False)}
+    n = 4
+    masses = [5.0, 2.0, 3.0, 1.0]
+    vec = [float(((7 * i + 3 * k) % 11) - 5) + 0.25 * k for i in range(n) for k in range(6)]
+    for coord, (fw, bw, needs_mass) in fam.items():
+        for na in (3, 2, 1):
+            src = arr(n)
+            fill(src, masses, vec)
+            pj = arr(n)
+            call = (lambda f, a, b, k: getattr(L, "reb_particles_transform_" + f)(a, b, a if f.startswith("inertial") else b, n, k)) if needs_mass else None
+            if needs_mass:
+                L.reb_particles_transform_inertial_to_jacobi_posvel(src, pj, src, n, n)
+                L.reb_particles_transform_inertial_to_jacobi_posvel(src, pj, src, n, na)
+            else:
+                getattr(L, "reb_particles_transform_" + fw)(src, pj, n, n)
+                getattr(L, "reb_particles_transform_" + fw)(src, pj, n, na)
+            back = arr(n)
+            for i in range(n):
+                back[i].m = masses[i]
+            if needs_mass:
+                L.reb_particles_transform_jacobi_to_inertial_posvel(back, pj, back, n, na)
+            else:
+                getattr(L, "reb_particles_transform_" + bw)(back, pj, n, na)
+            res["calls"] += 3
+            bad = rt_ok(src, back, n, POSV)
+            mbad = [i for i in range(n) if back[i].m != masses[i]]
+            if bad or mbad:
+                res["violations"].append({"fn": bw, "clause": "inverse(forward(q)) = q on a re-used coordinate array (first filled with all bodies active)", "body": bad[0] if bad else mbad[0],
+                                          "component": bad[1] if bad else "m", "original": bad[2] if bad else masses[mbad[0]], "got": bad[3] if bad else back[mbad[0]].m,
+                                          "row": {"m": masses, "na": na, "j": 0}})
 
 
 def main():
@@ -227,6 +269,7 @@ def main():
         if len(res["violations"]) > 30:
             break
     integrator_binding(res)
+    reused_arrays(res)
     json.dump(res, open(out, "w"))
 
 
